@@ -42,7 +42,7 @@ def _short_ty(t):
     return re.sub(r"[A-Za-z_][A-Za-z0-9_]*::", "", t or "")
 
 
-def alias_map(crate, cur_fns, cur_adts):
+def alias_map(crate, cur_fns, cur_adts, cur_consts=None):
     """{current path: reference path} for items that merely moved or were renamed.
     cur_fns: {path: (param types, ret type, kind)}, cur_adts: {path: (kind, names)}."""
     ref = reference(crate)
@@ -58,6 +58,15 @@ def alias_map(crate, cur_fns, cur_adts):
         c = [q for q, a in missing_adts.items() if _tail(q, 1) == _tail(p, 1) and a["names"] == names and a["kind"] == kind]
         if len(c) == 1 and c[0] not in out.values():
             out[p] = c[0]
+    # constants: same name, same type and value, the reference constant of that name is gone
+    if cur_consts and ref.get("consts"):
+        gone = {p: c for p, c in ref["consts"].items() if p not in cur_consts}
+        for p, c in cur_consts.items():
+            if p in ref["consts"]:
+                continue
+            cand = [q for q, rc in gone.items() if _tail(q, 1) == _tail(p, 1) and str(rc.get("v")) == str(c.get("v")) and rc.get("ty") == c.get("ty")]
+            if len(cand) == 1 and cand[0] not in out.values():
+                out[p] = cand[0]
     # functions
     missing = {p: f for p, f in ref["fns"].items() if p not in cur_fns and f["kind"] == "fn"}
     new = {p: s for p, s in cur_fns.items() if p not in ref["fns"] and s[2] == "fn"}
